@@ -23,7 +23,8 @@
 //! fields = [pipeline_id, completed_node_index, timestamp, partition_count, checksum, exec_mode,
 //!           total_nodes, last_node_type, progress_percent]
 //! table  = [[string, {"bytes": sha256 digest}] ...] : values of the real `compute_checksum`
-//!          (hex-decoded) for the strings the model will need; it instantiates the model's H.
+//!          (hex-decoded) for the protected strings of the case; each entry is checked against the
+//!          Coq model of SHA-256 (Ckpt/Sha256.v), which is the H of the model.
 use ibv::{Emitter, SplitMix64, Tier, drive};
 use ironbeam::checkpoint::{
     CheckpointConfig, CheckpointManager, CheckpointMetadata, CheckpointPolicy, CheckpointState,
